@@ -346,22 +346,9 @@ Proof.
   destruct (exec d o s) as [b s'|site s']; [apply IH; exact H|exact H].
 Qed.
 
-Lemma init_InvPos src : InvPos src (init src).
+Lemma init_InvPos text : InvPos text (init text).
 Proof.
-  unfold init.
-  destruct src as [|c r].
-  - cbn. constructor; cbn; try exact Logic.I; try (constructor; fail); try apply IsPos_start; try reflexivity.
-    + exists []. repeat split.
-    + constructor; [apply IsPos_start|constructor].
-  - destruct (c =? BOM) eqn:Eb; cbn -[blen].
-    + assert (P : IsPos (c :: r) (blen (c :: r) - blen r) 1).
-      { exists [c], r. split; [reflexivity|]. cbn [blen]. split; [lia|reflexivity]. }
-      constructor; cbn -[blen]; try exact Logic.I; try reflexivity; try exact P; try (constructor; fail).
-      * exists [c]. repeat split.
-      * constructor; [exact P|constructor].
-    + assert (P : IsPos (c :: r) (blen (c :: r) - blen (c :: r)) 0).
-      { exists [], (c :: r). split; [reflexivity|]. split; [cbn [blen]; lia|reflexivity]. }
-      constructor; cbn -[blen]; try exact Logic.I; try reflexivity; try exact P; try (constructor; fail).
-      * exists []. repeat split.
-      * constructor; [exact P|constructor].
+  unfold init. constructor; cbn -[blen]; try exact Logic.I; try reflexivity; try apply IsPos_start; try (constructor; fail).
+  - exists []. repeat split.
+  - constructor; [apply IsPos_start|constructor].
 Qed.
